@@ -2,12 +2,12 @@ import MsqProofs.Lemmas.ParseAccountDdl5
 /-!
 # C08, general accounting for the DDL classes — part 6: CREATE TABLE, ALTER TABLE, SET, the statement loop
 
-`ddlRunOK used` (Bool, on the token run of ONE statement as the parser delimits it) collects the hypotheses of the loops:
-no text-bearing attribute keyword twice in a comma piece of a top-level bracket group (`segsOKb`: the column definitions of the
-element list and of `PARTITIONED BY`), at most one `PRIMARY KEY` element (`pkOnce`), no text-bearing option keyword twice among the
-top-level tokens (`NoRepO`), no attribute keyword twice among the top-level tokens (`NoRep`: the column definitions of ALTER … ADD /
-MODIFY / CHANGE — for the whole statement, so two ADDs with the same attribute are outside), a bracket group after `PARTITIONED BY`
-/ `TBLPROPERTIES` (`groupAt`).
+`ddlRunOK used` (Bool, on the token run of ONE CREATE TABLE statement as the parser delimits it) collects the hypotheses of the
+loops: no text-bearing attribute keyword twice in a comma piece of a top-level bracket group (`segsOKb`: the column definitions of
+the element list and of `PARTITIONED BY`), at most one `PRIMARY KEY` element (`pkOnce`), no text-bearing option keyword twice among
+the top-level tokens (`NoRepO`), a bracket group after `PARTITIONED BY` / `TBLPROPERTIES` (`groupAt`).
+`alterOK d f ts` (Bool): the ALTER TABLE statement at the cursor `ts` is followed only to DELIMIT its operations; the token run of
+every operation satisfies `NoRep` (the column definition of ADD / MODIFY / CHANGE has no text-bearing attribute keyword twice).
 -/
 set_option linter.unusedVariables false
 set_option linter.unusedSectionVars false
@@ -20,8 +20,8 @@ namespace Ddl
 
 def segsOKb (us : List Tok) : Bool := us.all fun g => (splitBy "," g.children [] []).all NoRep
 def pkOnce (us : List Tok) : Bool := us.all fun g => decide (pkCnt (splitBy "," g.children [] []) ≤ 1)
-/-- the hypothesis on the token run of one CREATE TABLE / ALTER TABLE statement -/
-def ddlRunOK (us : List Tok) : Bool := segsOKb us && (pkOnce us && (NoRepO us && (NoRep us && groupAt us)))
+/-- the hypothesis on the token run of one CREATE TABLE statement -/
+def ddlRunOK (us : List Tok) : Bool := segsOKb us && (pkOnce us && (NoRepO us && groupAt us))
 theorem segsOKb_iff (us : List Tok) : segsOKb us = true ↔ SegsOK us := by
   simp only [segsOKb, SegsOK, List.all_eq_true]
 
@@ -68,9 +68,37 @@ def isNewRes : Stmt → Bool | .createTable _ => true | .alter _ _ => true | .se
 theorem fullD_old (s : Stmt) (h : isNewRes s = false) : FullDStmt s = FullStmt s := by
   cases s <;> simp [isNewRes, FullDStmt, FullStmt] at h ⊢
 
+/-- the tokens consumed between the cursor `ts` and its rest `r` -/
+def run (ts r : List Tok) : List Tok := ts.take (ts.length - r.length)
+theorem run_append (u r : List Tok) : run (u ++ r) r = u := by simp [run]
+/-- the operations after the first one, as `alterLoop` delimits them: each run satisfies `NoRep` -/
+def alterRunsOK (d : Gen.D) (f : Nat) : Nat → List Tok → Bool
+  | 0, _ => true
+  | g+1, ts =>
+    if searchStr ts "," then
+      (match pAlterExpr d f (ts.drop 1) with
+       | .ok (_, r) => NoRep (run (ts.drop 1) r) && alterRunsOK d f g r
+       | .error _ => true)
+    else true
+/-- every operation of the ALTER TABLE statement at the cursor `ts` (delimited by the parser) satisfies `NoRep` -/
+def alterOK (d : Gen.D) (f : Nat) (ts : List Tok) : Bool :=
+  match matchSeq ts ["ALTER", "TABLE"] with
+  | .error _ => true
+  | .ok (_, r0) => match pTblName r0 with
+    | .error _ => true
+    | .ok (_, r1) => match pAlterExpr d f r1 with
+      | .error _ => true
+      | .ok (_, r2) => NoRep (run r1 r2) && alterRunsOK d f (r2.length + 1) r2
+/-- the token hypothesis of one statement: by the class of the RESULT -/
+def stmtOK (d : Gen.D) (f : Nat) (ts : List Tok) (s : Stmt) (used : List Tok) : Bool :=
+  match s with
+  | .createTable _ => ddlRunOK used
+  | .alter _ _ => alterOK d f ts
+  | _ => true
+
 /-! ### CREATE TABLE -/
 theorem pCreateTable_acc (T : List String) (d : Gen.D) (f : Nat) (ts : List Tok) (s : Stmt) (r : List Tok) (h : pCreateTable d f ts = .ok (s, r)) :
-    ∃ used, ts = used ++ r ∧ ((isDdlRes s = true → ddlRunOK used = true) → FullDStmt s = true → Sub (tStmt s) T → AccAllD T used) := by
+    ∃ used, ts = used ++ r ∧ (stmtOK d f ts s used = true → FullDStmt s = true → Sub (tStmt s) T → AccAllD T used) := by
   have kCT : allKw ["CREATE", "TABLE"] = true := by decide
   have kIF : kwOk "IF" = true := by decide
   have kNOT : kwOk "NOT" = true := by decide
@@ -110,9 +138,9 @@ theorem pCreateTable_acc (T : List String) (d : Gen.D) (f : Nat) (ts : List Tok)
               have E := e0.trans (congrArg (u0 ++ ·) (eI.trans (congrArg (uI ++ ·) (eT.trans (congrArg (uT ++ ·) (e1.trans
                 (congrArg (g :: ·) (eO.trans (congrArg (uO ++ ·) eS)))))))))
               refine ⟨u0 ++ (uI ++ (uT ++ (g :: (uO ++ uS)))), by simpa using E, fun hok hf hs => ?_⟩
-              have hok := hok rfl
+              have hok : ddlRunOK (u0 ++ (uI ++ (uT ++ (g :: (uO ++ uS))))) = true := hok
               simp only [ddlRunOK, Bool.and_eq_true] at hok
-              obtain ⟨hseg, hpk, hno, _, hga⟩ := hok
+              obtain ⟨hseg, hpk, hno, hga⟩ := hok
               have hseg := (segsOKb_iff _).1 hseg
               have hg : g ∈ u0 ++ (uI ++ (uT ++ (g :: (uO ++ uS)))) := by simp
               have hOpt : OptOK c uO := by
@@ -199,7 +227,7 @@ theorem pAlterExpr_acc (T : List String) (d : Gen.D) (f : Nat) (ts : List Tok) (
   all_goals (split_run <;> first | (simp at h; done) | (simp at h; obtain ⟨rfl, rfl⟩ := h; obtain ⟨u1, e, ha⟩ := ar_used (accS_pAlterExpr T d f ts) h0 (pAlterExpr_consumes d f _ _ _ h0); exact ⟨u1, e, fun _ hf hs => ha hf hs⟩))
 
 theorem alterLoop_acc (T : List String) (d : Gen.D) (f : Nat) : ∀ g acc ts v r, alterLoop d f g acc ts = .ok (v, r) →
-    ∃ used, ts = used ++ r ∧ (NoRep used = true → FullDAOs v = true →
+    ∃ used, ts = used ++ r ∧ (alterRunsOK d f g ts = true → FullDAOs v = true →
       FullDAOs acc = true ∧ (Sub (tAOs v) T → AccAll T used ∧ Sub (tAOs acc) T)) := by
   have kC : kwOk "," = true := by decide
   intro g
@@ -216,8 +244,11 @@ theorem alterLoop_acc (T : List String) (d : Gen.D) (f : Nat) : ∀ g acc ts v r
         obtain ⟨u1, e1, ha⟩ := pAlterExpr_acc T d f _ _ _ hp
         obtain ⟨u2, e2, k⟩ := ih _ _ _ _ h
         refine ⟨t :: (u1 ++ u2), by rw [e1, e2]; simp, fun hr hf => ?_⟩
-        have hr2 : NoRep u2 = true := NoRep_sfx (a := t :: u1) (by simpa using hr)
-        have hr1 : NoRep u1 = true := NoRep_pfx (b := u2) (NoRep_sfx (a := [t]) (by simpa using hr))
+        unfold alterRunsOK at hr
+        rw [if_pos hcnd] at hr
+        simp only [List.drop_succ_cons, List.drop_zero, hp, Bool.and_eq_true] at hr
+        have hr2 : alterRunsOK d f g r1 = true := hr.2
+        have hr1 : NoRep u1 = true := by have := hr.1; rw [e1, run_append] at this; exact this
         obtain ⟨f1, k1⟩ := k hr2 hf
         rw [FullDAOs_append] at f1
         simp only [FullDAOs, Bool.and_true, Bool.and_eq_true] at f1
@@ -233,7 +264,7 @@ theorem alterLoop_acc (T : List String) (d : Gen.D) (f : Nat) : ∀ g acc ts v r
       exact ⟨[], by simp, fun _ hf => ⟨hf, fun hs => ⟨by simp [AccAll], hs⟩⟩⟩
 
 theorem pAlter_acc (T : List String) (d : Gen.D) (f : Nat) (ts : List Tok) (s : Stmt) (r : List Tok) (h : pAlter d f ts = .ok (s, r)) :
-    ∃ used, ts = used ++ r ∧ ((isDdlRes s = true → ddlRunOK used = true) → FullDStmt s = true → Sub (tStmt s) T → AccAllD T used) := by
+    ∃ used, ts = used ++ r ∧ (stmtOK d f ts s used = true → FullDStmt s = true → Sub (tStmt s) T → AccAllD T used) := by
   have kAT : allKw ["ALTER", "TABLE"] = true := by decide
   unfold pAlter at h
   split at h
@@ -254,11 +285,11 @@ theorem pAlter_acc (T : List String) (d : Gen.D) (f : Nat) (ts : List Tok) (s : 
           obtain ⟨u2, e2, k2⟩ := alterLoop_acc T d f _ _ _ _ _ hl
           have E := e0.trans (congrArg (u0 ++ ·) (eT.trans (congrArg (uT ++ ·) (e1.trans (congrArg (u1 ++ ·) e2)))))
           refine ⟨u0 ++ (uT ++ (u1 ++ u2)), by simpa using E, fun hok hf hs => ?_⟩
-          have hok := hok rfl
-          simp only [ddlRunOK, Bool.and_eq_true] at hok
-          obtain ⟨_, _, _, hnr, _⟩ := hok
-          have hnr2 : NoRep u2 = true := NoRep_sfx (a := u0 ++ (uT ++ u1)) (by simpa using hnr)
-          have hnr1 : NoRep u1 = true := NoRep_pfx (b := u2) (NoRep_sfx (a := u0 ++ uT) (by simpa using hnr))
+          have hok : alterOK d f ts = true := hok
+          unfold alterOK at hok
+          simp only [hm, ht, hx, Bool.and_eq_true] at hok
+          have hnr2 : alterRunsOK d f (r2.length + 1) r2 = true := hok.2
+          have hnr1 : NoRep u1 = true := by have := hok.1; rw [e1, run_append] at this; exact this
           have hf : FullDAOs xs = true := hf
           rw [tStmt_alter, sub_append] at hs
           obtain ⟨f1, k3⟩ := k2 hnr2 hf
